@@ -208,6 +208,9 @@ func checkC03(c *lexCase, def *lexer.StatefulDefinition, r *vstat.Run) outcome {
 
 func compareToks(def lexer.Definition, got []lexer.Token, want []lexgen.RTok, whole bool) string {
 	syms := lexer.SymbolsByRune(def)
+	if _, ok := syms[lexer.EOF]; !ok {
+		syms[lexer.EOF] = "EOF" // a rule of that name has taken the symbol's place in the table
+	}
 	if whole && len(got) != len(want) {
 		return fmt.Sprintf("%d tokens, the rules define %d\n got  %s\n want %s", len(got), len(want), fmtLexToks(syms, got), fmtRToks(want))
 	}
